@@ -38,7 +38,7 @@ func init() {
 			return bs
 		},
 		Gates: func(tier string) map[string]int64 {
-			return map[string]int64{"requests": 150, "plugin_processes": 600, "responses_with_files": 100, "generated_files": 200, "permutation_requests": 20, "param:opaque": 20, "param:hybrid": 20, "param:source_relative": 20, "linked_requests": 60, "gen_requests": 60, "optionmap_requests": 8}
+			return map[string]int64{"requests": 150, "plugin_processes": 600, "responses_with_files": 100, "generated_files": 200, "permutation_requests": 20, "param:opaque": 20, "param:hybrid": 20, "param:source_relative": 20, "linked_requests": 60, "gen_requests": 60, "optionmap_requests": 8, "names_requests": 40}
 		},
 		Run: runC40,
 	})
@@ -330,6 +330,34 @@ func runC40(c *core.Ctx, b core.Batch) {
 		param, tag := c40Params(i + b.N)
 		c.Count("param:" + tag)
 		c40Request(c, plugin, names[len(names)-1], files, names, param, "optionmap")
+	}
+	// (d) messages whose field and oneof names collide after camel-casing (the
+	// collision-seeking generator of C42), at the hybrid and opaque levels where
+	// the generator resolves such clashes: several clash groups meeting in one oneof
+	for i := 0; i < c.Scale(12, 200); i++ {
+		r := c.Rng(uint64(0x40d)<<20 | uint64(b.N)<<10 | uint64(i))
+		fdp := c42NameSchema(r, fmt.Sprintf("c40names/b%d_%d.proto", b.N, i), i)
+		// make clash groups meet in a oneof: members named _x next to fields X_x
+		m := &descriptorpb.DescriptorProto{Name: proto.String("Meet"), OneofDecl: []*descriptorpb.OneofDescriptorProto{{Name: proto.String("u")}}}
+		words := []string{"foo", "bar", "baz", "qux", "quux"}
+		k := 2 + r.Intn(4)
+		num := int32(1)
+		for j := 0; j < k; j++ {
+			m.Field = append(m.Field, &descriptorpb.FieldDescriptorProto{Name: proto.String("_" + words[j]), Number: proto.Int32(num), Label: descriptorpb.FieldDescriptorProto_LABEL_OPTIONAL.Enum(), Type: descriptorpb.FieldDescriptorProto_TYPE_STRING.Enum(), OneofIndex: proto.Int32(0), JsonName: proto.String("o" + words[j])})
+			num++
+		}
+		for j := 0; j < k; j++ {
+			m.Field = append(m.Field, &descriptorpb.FieldDescriptorProto{Name: proto.String("X_" + words[j]), Number: proto.Int32(num), Label: descriptorpb.FieldDescriptorProto_LABEL_OPTIONAL.Enum(), Type: descriptorpb.FieldDescriptorProto_TYPE_INT32.Enum(), JsonName: proto.String("p" + words[j])})
+			num++
+		}
+		fdp.MessageType = append(fdp.MessageType, m)
+		if _, err := protodesc.NewFile(fdp, nil); err != nil {
+			c.Count("names_schema_rejected")
+			continue
+		}
+		level := []string{"API_HYBRID", "API_OPAQUE"}[i%2]
+		c.Count("param:" + strings.ToLower(strings.TrimPrefix(level, "API_")))
+		c40Request(c, plugin, fdp.GetName(), []*descriptorpb.FileDescriptorProto{fdp}, []string{fdp.GetName()}, "default_api_level="+level, "names")
 	}
 }
 
